@@ -269,8 +269,45 @@ func runC11(w *mon.W) {
 			n = len(s)
 			w.Add("odd_near_palindromes", 1)
 		}
+		bigExpand := i%25 == 24
+		switch {
+		case i%20 == 3:
+			// a palindrome (or a palindrome with one letter changed) over plain A/C/G/T in one case, at every even
+			// length 2..128 in turn: restriction sites, k-mer screens at the word sizes 16, 32, 64
+			half := 1 + (i/20)%64
+			x := randString(r, "ACGT", half)
+			s = x + oracle.MustRevComp(x)
+			if r.Intn(3) == 0 {
+				b := []byte(s)
+				pos := []int{0, len(b) - 1, r.Intn(len(b))}[r.Intn(3)]
+				b[pos] = "ACGT"[(strings.IndexByte("ACGT", b[pos])+1+r.Intn(3))%4]
+				s = string(b)
+			}
+			if r.Intn(3) == 0 {
+				s = strings.ToLower(s)
+			}
+			n = len(s)
+			w.Add("plain_palindromes_at_every_even_length", 1)
+		case i%20 == 17:
+			// a periodic degenerate design: one unit holding ambiguity codes repeated (Gly/Ser linkers, NNK cassettes),
+			// 2^6..2^16 variants
+			unit := []string{"GGN", "NNK", "GGS", "GGSGGN", "RYA", "ACGTRCGTACGT", "NNKGGC", "TCNGGN", "AARGAY"}[r.Intn(9)]
+			per := oracle.ExpansionSize(unit, 1<<20)
+			reps := 2
+			for total := per * per; reps < 12 && total*per <= 65536; total *= per {
+				reps++
+			}
+			reps = 2 + r.Intn(reps-1)
+			s = randCase(r, strings.Repeat(unit, reps)+randString(r, "ACGT", r.Intn(4)), []float64{0, 0, 0.5}[r.Intn(3)])
+			if r.Intn(2) == 0 {
+				s = randString(r, "ACGT", r.Intn(13)) + s
+			}
+			n = len(s)
+			bigExpand = true
+			w.Add("periodic_degenerate_designs", 1)
+		}
 		hasU := false
-		if r.Intn(10) == 0 && n > 0 {
+		if r.Intn(10) == 0 && n > 0 && i%20 != 3 && i%20 != 17 {
 			b := []byte(s)
 			b[r.Intn(n)] = "Uu"[r.Intn(2)]
 			s = string(b)
@@ -278,11 +315,11 @@ func runC11(w *mon.W) {
 			w.Add("strings_with_U", 1)
 		}
 		// make some palindromes
-		if !hasU && r.Intn(8) == 0 {
+		if !hasU && r.Intn(8) == 0 && i%20 != 3 && i%20 != 17 {
 			s = s + oracle.MustRevComp(s)
 			w.Add("constructed_palindromes", 1)
 		}
-		expand := oracle.ExpansionSize(s, 4096) <= 4096 || (i%25 == 24 && oracle.ExpansionSize(s, 40000) <= 40000)
+		expand := oracle.ExpansionSize(s, 4096) <= 4096 || (bigExpand && oracle.ExpansionSize(s, 70000) <= 70000)
 		w.Begin(id, s)
 		c11Judge(w, id, s, n <= 60, expand, hasU)
 		w.End()
